@@ -83,6 +83,7 @@ class Obj:
         self.taint_mtimes: set = set()
         self.taint_versions: list = []
         self.pre_version = None
+        self.prepend = True       # own directory first for load:
 
 
 class C16(CheckBase):
@@ -269,7 +270,11 @@ class C16(CheckBase):
                                   [ch.pick(["render", "names", "ctype"]),
                                    ops[i][1]])
         pkg_path = ch.coin(0.3)
-        return {"dirs": dirs, "search_path": search, "pkg_path": pkg_path,
+        extra = {}
+        if caller and ch.coin(0.25):
+            # the documented switch: load: then walks the search path only
+            extra["prepend_relative"] = False
+        return {**extra, "dirs": dirs, "search_path": search, "pkg_path": pkg_path,
                 "default_extension": default_ext, "auto_reload": auto,
                 "files": files, "objects": objects, "ops": ops,
                 "faults": faults, "format": "xml"}
@@ -375,10 +380,13 @@ class C16(CheckBase):
         with world.as_proc(server):
             for o in case["objects"]:
                 ob = Obj(o["path"], o["auto_reload"])
+                ob.prepend = case.get("prepend_relative", True)
                 ob.real = self.CountingFile(
                     full(o["path"]), auto_reload=o["auto_reload"],
                     search_path=[os.path.join(root, d)
-                                 for d in case["search_path"]])
+                                 for d in case["search_path"]],
+                    **({"prepend_relative_search_path": False}
+                       if case.get("prepend_relative") is False else {}))
                 objs.append(ob)
             loader = self.TemplateLoader(
                 [os.path.join(root, d) for d in case["search_path"]] +
@@ -447,7 +455,9 @@ class C16(CheckBase):
             ch_ = ob.children.get(spec)
             if ch_ is None:
                 # relative to the caller's directory first, then the path
-                cand = [os.path.dirname(ob.path)] + list(case["search_path"])
+                cand = ([os.path.dirname(ob.path)]
+                        if ob.prepend else []) + \
+                    list(case["search_path"])
                 for d in cand:
                     if (d + "/" + spec) in fsm:
                         ch_ = Obj(d + "/" + spec, ob.auto_reload)
